@@ -25,8 +25,8 @@
 
   Methods `MountFS` defines itself (`prim`, each `check(); _delegate; member call`):
   getinfo (name fix-up for a mounted root), listdir, scandir (+ `_scan_mount_points`), makedir,
-  openbin / open (mode validated BEFORE `check()`), remove, removedir (normalises, refuses `""`/`"/"`,
-  delegates the NORMALISED path), readbytes, getsize, gettype, isdir, isfile, setinfo, upload,
+  openbin / open (mode validated BEFORE `check()`), remove, removedir (`_delegate` on the raw path, then
+  `""`/`"/"` refused), readbytes, getsize, gettype, isdir, isfile, setinfo, upload,
   writebytes, validatepath, close.  Everything else is the fs/base.py default = a program over those
   (`Route.Prog`; the programs for exists, isempty, create, touch, appendbytes, makedirs, move, copy are
   C17's `RouteBase`, validated there against the call traces of the real code; the walker-based
@@ -66,8 +66,9 @@ def tableFrom {σ : Type} : Nat → List (Str × σ) → Mount.Table
 /-- `self.mounts` as C17's table: list entry `k` is member `k + 1` (member `0` = `default_fs`) -/
 def table {σ : Type} (l : List (Str × σ)) : Mount.Table := tableFrom 1 l
 
-/-- `MountFS._delegate(path)` = `Mount.delegate`: `forcedir(abspath(normpath(path)))`, FIRST mount whose
-key is a string prefix (remainder without trailing slashes), else `(default_fs, path)` with the RAW path -/
+/-- `MountFS._delegate(path)` = `Mount.delegate`: a path with an invalid character (NUL) is refused first
+(since /repo 48e26ed); then `forcedir(abspath(normpath(path)))`, FIRST mount whose key is a string prefix
+(remainder without trailing slashes), else `(default_fs, path)` with the RAW path -/
 def delegate {σ : Type} (ms : MState σ) (p : Str) : Res (Nat × Str) := Mount.delegate (table ms.mounts) p
 
 section Functor
@@ -153,12 +154,14 @@ def prim (ms : MState σ) (pr : Prim) : MState σ × Out :=
     if (parseBinMode m).isNone then (ms, .err .ValueError)      -- `validate_openbin_mode(mode)` first
     else checked ms (routed D F ms p (.openbin · m))
   | .removedir p =>
+    -- since /repo 48e26ed: `fs, _path = self._delegate(path)` first (the RAW path: invalid characters are
+    -- refused), then `if normpath(path) in ("", "/"): raise RemoveRootError`, then `fs.removedir(_path)`
     checked ms
-      (match normpath p with
+      (match delegate ms p with
        | .err e => (ms, .err e)
-       | .ok n =>
-         if n = [] ∨ n = ['/'] then (ms, .err .RemoveRootError)
-         else routed D F ms n .removedir)
+       | .ok _ =>
+         if Mount.normOf p = [] ∨ Mount.normOf p = ['/'] then (ms, .err .RemoveRootError)
+         else routed D F ms p .removedir)
   | .makedirs _ _ | .open_ _ _ _ | .readtext _ | .download _ | .writetext _ _ => (ms, .err .Unsupported)
   | _ => checked ms (routed D F ms pr.path (pr.memberOp ·))
 
